@@ -1,4 +1,226 @@
-(* C11 - OrderedMap and Set: statements only (being filled in). *)
-From Coq Require Import NArith List.
-From Verif.C11_Set Require Import Model.
+(* C11 - OrderedMap and Set: insertion-ordered model, exact diffs, no deadlock. Statements only.
+   els s (= s_toslice s) is the duplicate-free list of elements in first-insertion order, the abstraction of a state. *)
+From Coq Require Import NArith ZArith List Bool.
+From Verif.C11_Set Require Import Model Refine SetBasics ArithCodec SetProofs Corr History Locks Skeletons.
 Import ListNotations.
+Open Scope N_scope.
+
+(* ---- refinement: the pointer-level ordered map is an association list in first-insertion order ---- *)
+
+(* every state reachable by any history of Set / OrderedMap operations satisfies the representation invariant *)
+Theorem C11_reachable_inv : forall init h, Inv (run_ops (s_new init) h).
+Proof. exact reachable_inv. Qed.
+
+Theorem C11_refines_set : forall o k v, Inv o ->
+  Inv (fst (om_set o k v)) /\ om_list (fst (om_set o k v)) = l_set (om_list o) k v /\
+  snd (om_set o k v) = l_get (om_list o) k.
+Proof. exact set_spec. Qed.
+
+Theorem C11_refines_delete : forall o k, Inv o ->
+  Inv (fst (om_delete o k)) /\ om_list (fst (om_delete o k)) = l_del (om_list o) k /\
+  snd (om_delete o k) = match l_get (om_list o) k with Some _ => true | None => false end.
+Proof. exact delete_spec. Qed.
+
+(* ForEachReverse visits exactly the reverse of ForEach; keys are unique; Get/Has/Size/Head/Tail/Clear read the list *)
+Theorem C11_refines_reverse : forall o, Inv o -> om_rlist o = rev (om_list o).
+Proof. exact om_rlist_rev. Qed.
+Theorem C11_refines_keys_unique : forall o, Inv o -> NoDup (map fst (om_list o)).
+Proof. exact keys_nodup. Qed.
+Theorem C11_refines_get : forall o k, Inv o -> om_get o k = l_get (om_list o) k.
+Proof. exact get_spec. Qed.
+Theorem C11_refines_size : forall o, Inv o -> om_size o = length (om_list o).
+Proof. exact size_spec. Qed.
+Theorem C11_refines_head_tail : forall o, Inv o -> om_head o = hd_error (om_list o) /\ om_tail o = hd_error (rev (om_list o)).
+Proof. intros o I. split. exact (head_spec o I). exact (tail_spec o I). Qed.
+Theorem C11_refines_clear : forall o, Inv (om_clear o) /\ om_list (om_clear o) = [].
+Proof. exact clear_spec. Qed.
+
+(* Add / Delete report prior presence; re-insertion appends at the end (e_add), deletion keeps the order (e_del) *)
+Theorem C11_refines_add : forall s e, Inv s ->
+  Inv (fst (s_add s e)) /\ s_toslice (fst (s_add s e)) = e_add (s_toslice s) e /\ snd (s_add s e) = negb (inb e (s_toslice s)).
+Proof. exact add_spec. Qed.
+Theorem C11_refines_sdelete : forall s e, Inv s ->
+  Inv (fst (s_delete s e)) /\ s_toslice (fst (s_delete s e)) = e_del (s_toslice s) e /\ snd (s_delete s e) = inb e (s_toslice s).
+Proof. exact del_spec. Qed.
+Theorem C11_refines_clone : forall s, Inv s -> s_toslice (s_clone s) = s_toslice s.
+Proof. exact clone_spec. Qed.
+
+(* ---- diffs: exactly the elements whose membership changed ---- *)
+
+Theorem C11_diffs_addall : forall s other, Inv s ->
+  let '(s', added) := s_addall s other in
+  Inv s' /\ Inv added /\ s_toslice s' = fold_left e_add other (s_toslice s) /\
+  (forall x, In x (s_toslice s') <-> In x (s_toslice s) \/ In x other) /\
+  (forall x, In x (s_toslice added) <-> ~ In x (s_toslice s) /\ In x (s_toslice s')).
+Proof. exact addall_diff. Qed.
+
+Theorem C11_diffs_deleteall : forall s other, Inv s ->
+  let '(s', removed) := s_deleteall s other in
+  Inv s' /\ Inv removed /\ s_toslice s' = fold_left e_del other (s_toslice s) /\
+  (forall x, In x (s_toslice s') <-> In x (s_toslice s) /\ ~ In x other) /\
+  (forall x, In x (s_toslice removed) <-> In x (s_toslice s) /\ ~ In x (s_toslice s')).
+Proof. exact deleteall_diff. Qed.
+
+(* Apply (and Compute, whose factory sees the current elements), mutation sets disjoint *)
+Theorem C11_diffs_apply : forall s adds dels, Inv s -> (forall x, In x adds -> ~ In x dels) ->
+  let '(s', a, r) := s_apply s adds dels in
+  (forall x, In x (s_toslice a) <-> ~ In x (s_toslice s) /\ In x (s_toslice s')) /\
+  (forall x, In x (s_toslice r) <-> In x (s_toslice s) /\ ~ In x (s_toslice s')).
+Proof. exact apply_diff. Qed.
+
+Theorem C11_diffs_compute : forall s f, Inv s -> (forall x, In x (fst (f (s_toslice s))) -> ~ In x (snd (f (s_toslice s)))) ->
+  let '(s', a, r) := s_compute s f in
+  (forall x, In x (s_toslice a) <-> ~ In x (s_toslice s) /\ In x (s_toslice s')) /\
+  (forall x, In x (s_toslice r) <-> In x (s_toslice s) /\ ~ In x (s_toslice s')).
+Proof. exact compute_diff. Qed.
+
+(* arbitrary mutations: exact contents of the results, and the returned mutations replay the state change *)
+Theorem C11_diffs_apply_general : forall s adds dels, Inv s ->
+  let '(s', a, r) := s_apply s adds dels in
+  Inv s' /\ Inv a /\ Inv r /\
+  s_toslice s' = fold_left e_del dels (fold_left e_add adds (s_toslice s)) /\
+  (forall x, In x (s_toslice a) <-> In x adds /\ ~ In x (s_toslice s)) /\
+  (forall x, In x (s_toslice r) <-> In x dels /\ (In x (s_toslice s) \/ In x adds)) /\
+  (forall x, In x (s_toslice s') <-> (In x (s_toslice s) \/ In x (s_toslice a)) /\ ~ In x (s_toslice r)).
+Proof. exact apply_spec. Qed.
+
+(* the unguarded statement is refuted: an element in both mutation sets is reported twice, membership unchanged
+   (known finding apply-overlap-reports-unchanged-element) *)
+Theorem C11_refuted_apply_overlap :
+  let '(s', a, r) := s_apply om_empty [1] [1] in s_toslice s' = [] /\ s_toslice a = [1] /\ s_toslice r = [1].
+Proof. exact apply_overlap_witness. Qed.
+
+(* Replace (after fix d322c7c): the new contents are the argument, the result is exactly what was removed *)
+Theorem C11_diffs_replace : forall s elems, Inv s ->
+  let '(s', removed) := s_replace s elems in
+  Inv s' /\ Inv removed /\ s_toslice s' = fold_left e_add elems [] /\
+  (forall x, In x (s_toslice s') <-> In x elems) /\
+  (forall x, In x (s_toslice removed) <-> In x (s_toslice s) /\ ~ In x (s_toslice s')).
+Proof. exact replace_diff. Qed.
+
+Example C11_regression_D11a : s_toslice (snd (s_replace (s_new [1; 2]) [2; 3])) = [1].
+Proof. vm_compute. reflexivity. Qed.
+
+(* ---- algebra ---- *)
+
+Theorem C11_algebra_hasall : forall s other, Inv s -> (s_hasall s other = true <-> forall x, In x other -> In x (s_toslice s)).
+Proof. exact hasall_incl. Qed.
+Theorem C11_algebra_equals : forall s other, Inv s -> NoDup other ->
+  (s_equals s other = true <-> forall x, In x (s_toslice s) <-> In x other).
+Proof. exact equals_same_elements. Qed.
+Theorem C11_algebra_filter : forall s p, Inv s -> Inv (s_filter s p) /\ s_toslice (s_filter s p) = filter p (s_toslice s).
+Proof. exact filter_spec. Qed.
+Theorem C11_algebra_intersect : forall s other, Inv s ->
+  s_toslice (s_intersect s other) = filter (fun e => inb e other) (s_toslice s) /\
+  (forall x, In x (s_toslice (s_intersect s other)) <-> In x (s_toslice s) /\ In x other).
+Proof. exact intersect_spec. Qed.
+Theorem C11_algebra_is : forall s e, Inv s -> (s_is s e = true <-> s_toslice s = [e]).
+Proof. exact is_singleton. Qed.
+Theorem C11_algebra_any : forall s, s_any s = hd_error (s_toslice s).
+Proof. exact any_first. Qed.
+Theorem C11_algebra_toslice : forall s e, Inv s -> NoDup (s_toslice s) /\ om_has s e = inb e (s_toslice s) /\ om_size s = length (s_toslice s).
+Proof. intros s e I. split. exact (toslice_nodup s I). split. exact (has_toslice s e I). exact (size_toslice s I). Qed.
+
+(* ---- SetArithmetic: reported crossings = the elements whose (count >= threshold) status changed ---- *)
+
+Theorem C11_arith_add : forall c adds dels thr, NoDup adds -> NoDup dels ->
+  let '(c', a, d) := ar_add c adds dels thr in
+  Inv a /\ Inv d /\
+  (forall e, cget c' e = (cget c e + (if inb e adds then 1 else 0) - (if inb e dels then 1 else 0))%Z) /\
+  (forall e, In e (s_toslice a) <-> (above thr c e = false /\ above thr c' e = true)) /\
+  (forall e, In e (s_toslice d) <-> (above thr c e = true /\ above thr c' e = false)).
+Proof. exact ar_add_spec. Qed.
+
+Theorem C11_arith_sub : forall c adds dels thr, NoDup adds -> NoDup dels ->
+  let '(c', a, d) := ar_sub c adds dels thr in
+  Inv a /\ Inv d /\
+  (forall e, cget c' e = (cget c e - (if inb e adds then 1 else 0) + (if inb e dels then 1 else 0))%Z) /\
+  (forall e, In e (s_toslice a) <-> (above thr c e = false /\ above thr c' e = true)) /\
+  (forall e, In e (s_toslice d) <-> (above thr c e = true /\ above thr c' e = false)).
+Proof. exact ar_sub_spec. Qed.
+
+(* ---- codec: Decode (Encode s) restores contents and order and consumes everything ---- *)
+
+Theorem C11_codec_roundtrip : forall s, Inv s ->
+  (forall e, In e (s_toslice s) -> e < 4294967296) -> (N.of_nat (om_size s) < 4294967296) ->
+  let '(s', r) := s_decode om_empty (s_encode s) in
+  r = Some (length (s_encode s)) /\ Inv s' /\ s_toslice s' = s_toslice s.
+Proof. exact codec_roundtrip. Qed.
+
+Theorem C11_codec_decode_into : forall s t, Inv s -> Inv t ->
+  (forall e, In e (s_toslice s) -> e < 4294967296) -> (N.of_nat (om_size s) < 4294967296) ->
+  let '(s', r) := s_decode t (s_encode s) in
+  r = Some (length (s_encode s)) /\ Inv s' /\ s_toslice s' = fold_left e_add (s_toslice s) (s_toslice t).
+Proof. exact codec_decode_into. Qed.
+
+(* ---- concurrency ---- *)
+
+(* the general lock-hierarchy theorem (Go RWMutex with writer preference): programs that acquire locks in strictly
+   increasing rank and never re-acquire a held lock cannot reach a stuck state, for any number of threads and any schedule *)
+Theorem C11_lock_hierarchy : forall progs : list (list act),
+  Forall (fun p => okto [] p []) progs -> forall sched, stuck (run (map init progs) sched) = false.
+Proof. exact hierarchy_no_deadlock. Qed.
+
+(* every goroutine performs any sequence of calls of the 21 method skeletons (after fix c86f6c5) *)
+Theorem C11_no_deadlock : forall progs : list (list act),
+  Forall (paths goroutine) progs -> forall sched, stuck (run (map init progs) sched) = false.
+Proof. exact set_no_deadlock. Qed.
+
+(* the pinned DeleteAll (re-entrant RLock through Delete) fails the check and deadlocks with a concurrent Apply *)
+Theorem C11_refuted_deleteall_pinned :
+  chk [] sDeleteAll_pinned = None /\
+  exists progs sched, Forall (paths goroutine_pinned) progs /\ stuck (run (map init progs) sched) = true.
+Proof. split. exact pinned_deleteall_rejected. exact pinned_deleteall_deadlocks. Qed.
+
+(* atomicity of Apply / Compute / Replace: in every reachable state at most one goroutine is inside a section
+   write-locked on applyMutex, and then no goroutine is inside a read-locked one (Add/AddAll/Delete/DeleteAll) *)
+Theorem C11_atomic_sections : forall (progs : list (list act)) sched,
+  let s := run (map init progs) sched in
+  (count (writes A) s <= 1)%nat /\ ((1 <= count (writes A) s)%nat -> count (reads A) s = 0%nat).
+Proof. exact set_atomic_sections. Qed.
+
+(* ---- non-vacuity ---- *)
+
+Example C11_nonvacuous_inv :
+  let s := run_ops (s_new [3; 1; 2]) [ODelete 1; OAdd 1; OApply [5] [3]; OReplace [2; 7]] in
+  s_toslice s = [2; 7] /\ om_size s = 2%nat.
+Proof. vm_compute. auto. Qed.
+
+Example C11_nonvacuous_paths : Forall (paths goroutine_pinned) [d11b_t0; d11b_t1].
+Proof. repeat constructor. exact d11b_t0_path. exact d11b_t1_path. Qed.
+
+Example C11_nonvacuous_run : finished (run (map init [[RLock A; RLock M; RLock D; RUnlock D; RUnlock M; RUnlock A]; d11b_t1])
+                                   [0; 1; 0; 1; 0; 0; 0; 0; 1; 1; 1]%nat) = true.
+Proof. exact fixed_deleteall_runs. Qed.
+
+Example C11_nonvacuous_arith :
+  let '(c', a, d) := ar_add [(3, 1%Z)] [1; 2] [2; 3] 1 in s_toslice a = [1] /\ s_toslice d = [3].
+Proof. vm_compute. auto. Qed.
+
+Example C11_nonvacuous_codec :
+  s_toslice (fst (s_decode om_empty (s_encode (s_new [4294967295; 256; 0])))) = [4294967295; 256; 0].
+Proof. vm_compute. reflexivity. Qed.
+
+Print Assumptions C11_reachable_inv.
+Print Assumptions C11_refines_set.
+Print Assumptions C11_refines_delete.
+Print Assumptions C11_refines_reverse.
+Print Assumptions C11_diffs_addall.
+Print Assumptions C11_diffs_deleteall.
+Print Assumptions C11_diffs_apply.
+Print Assumptions C11_diffs_apply_general.
+Print Assumptions C11_diffs_compute.
+Print Assumptions C11_diffs_replace.
+Print Assumptions C11_refuted_apply_overlap.
+Print Assumptions C11_algebra_equals.
+Print Assumptions C11_algebra_filter.
+Print Assumptions C11_algebra_intersect.
+Print Assumptions C11_refines_clone.
+Print Assumptions C11_arith_add.
+Print Assumptions C11_arith_sub.
+Print Assumptions C11_codec_roundtrip.
+Print Assumptions C11_codec_decode_into.
+Print Assumptions C11_lock_hierarchy.
+Print Assumptions C11_no_deadlock.
+Print Assumptions C11_refuted_deleteall_pinned.
+Print Assumptions C11_atomic_sections.
